@@ -168,3 +168,70 @@ func (r *NullReturner) Result() (done bool, err error, n int) {
 	defer r.mu.Unlock()
 	return r.Done, r.Err, r.N
 }
+
+// Caller is an instrumented PipelineCaller.
+type Caller struct {
+	ID  int
+	Log *Log
+
+	mu    sync.Mutex
+	gates map[uint64]chan struct{}
+}
+
+func NewCaller(id int, log *Log) *Caller {
+	return &Caller{ID: id, Log: log, gates: map[uint64]chan struct{}{}}
+}
+
+func (c *Caller) Hold(call uint64) {
+	c.mu.Lock()
+	c.gates[call] = make(chan struct{})
+	c.mu.Unlock()
+}
+
+func (c *Caller) Open(call uint64) {
+	c.mu.Lock()
+	g := c.gates[call]
+	delete(c.gates, call)
+	c.mu.Unlock()
+	if g != nil {
+		close(g)
+	}
+}
+
+func (c *Caller) gate(call uint64) chan struct{} {
+	c.mu.Lock()
+	defer c.mu.Unlock()
+	return c.gates[call]
+}
+
+func xformKey(t []capnp.PipelineOp) uint64 {
+	k := uint64(len(t))
+	for _, op := range t {
+		k = k*65537 + uint64(op.Field) + 1
+	}
+	return k
+}
+
+func (c *Caller) PipelineSend(ctx context.Context, transform []capnp.PipelineOp, s capnp.Send) (*capnp.Answer, capnp.ReleaseFunc) {
+	call := s.Method.InterfaceID
+	c.Log.Add(Event{Kind: "pipe-start", Hook: c.ID, Call: call, H: int(xformKey(transform))})
+	if g := c.gate(call); g != nil {
+		<-g
+	}
+	c.Log.Add(Event{Kind: "pipe-end", Hook: c.ID, Call: call})
+	return capnp.ErrorAnswer(s.Method, fmt.Errorf("caller %d call %d: capsim: pipelined call result", c.ID, call)), func() {}
+}
+
+func (c *Caller) PipelineRecv(ctx context.Context, transform []capnp.PipelineOp, r capnp.Recv) capnp.PipelineCaller {
+	call := r.Method.InterfaceID
+	c.Log.Add(Event{Kind: "pipe-start", Hook: c.ID, Call: call, H: int(xformKey(transform))})
+	if g := c.gate(call); g != nil {
+		<-g
+	}
+	c.Log.Add(Event{Kind: "pipe-end", Hook: c.ID, Call: call})
+	r.Reject(fmt.Errorf("caller %d call %d: capsim: pipelined call result", c.ID, call))
+	return nil
+}
+
+// XformKey exposes the transform hash used in pipe-start events.
+func XformKey(t []capnp.PipelineOp) int { return int(xformKey(t)) }
